@@ -90,7 +90,7 @@ def key_of(v):
 def main(tier, seed):
     from framework import Runner, Query
     R = Runner('C10', tier, seed); R.setup()
-    R.blocks = models_str.STD_BLOCKS if tier == 'quick' else None       # quick: names over Latin, CJK, fullwidth and pictograph blocks; thorough: all of Unicode
+    R.blocks = models_str.STD_BLOCKS       # symbolic name chars range over Latin..Latin Ext-B, CJK punctuation + ideographs, fullwidth forms, pictographs (thorough adds an all-Unicode query where noted)
     quick = tier == 'quick'
     c01.load_keywords(R)
     R.assumptions += ['operands S, P and image components are atoms with 1 symbolic well-formed char (one nesting each); interval numerals of 1..3 symbolic digits with 0..2 leading zeros; placeholder followed by 1..2 identifier chars']
